@@ -25,9 +25,15 @@ def message_line(rng, cname, mmsi):
 def make_messages(rng, mmsis, per=3):
     """pool[mmsi] = list of single-sentence messages of different types (different attribute sets)"""
     pool = {}
-    for m in mmsis:
+    for k, m in enumerate(mmsis):
         pool[m] = []
-        for cname in rng.sample(MSG_CLASSES, per):
+        names = rng.sample(MSG_CLASSES, per)
+        if k == 0:
+            # always: the two kinds of message that share one message type but carry different attributes
+            names = ['MessageType24PartA', 'MessageType24PartB'] + names[2:]
+        elif k == 2:
+            names = ['MessageType24PartB', 'MessageType24PartA'] + names[2:]
+        for cname in names:
             cls = gen.concrete_classes()[cname]
             full = gen.total_width(cls)
             bits = gen.payload_bits(rng, cname, length=min(full, 420), overrides={8: gen.bits_of_int(m, 30)})
@@ -35,6 +41,11 @@ def make_messages(rng, mmsis, per=3):
             if len(payload) > 200:
                 continue
             pool[m].append(gen.render(bits)[0])
+        if k == 1:
+            # ... and a position report cut in front of its position next to a complete one of the same type
+            for length in (168, 60):
+                bits = gen.payload_bits(rng, 'MessageType1', length=length, overrides={8: gen.bits_of_int(m, 30)})
+                pool[m].insert(0, gen.render(bits)[0])
     return pool
 
 
